@@ -1,7 +1,9 @@
 /-
-  FframeGeneralAll — `C05_frame_general`: the calls append / prepend / insert_after / insert_before / remove / detach
-  through their pair readings (`append_pair` …) and `getFrame_specMoveP` / `getFrame_specRemoveP`
-  (Lemmas/FframeGeneralMove.lean); the setters, node creation, `set_text_consolidation` through
+  FframeGeneralAll — `C05_frame_general`: constructor by constructor over `XCall.framed`.  append / prepend /
+  insert_after / insert_before / remove / detach through their pair readings (`append_pair` …) and
+  `getFrame_specMoveP` / `getFrame_specRemoveP` (Lemmas/FframeGeneralMove.lean); replace, element_unwrap,
+  element_wrap, clone_node, clone_with_prefixes, map insert / remove, text_content_mut().set() through
+  FframeGeneralReplace / Unwrap / More / Cwp; the setters, node creation, `set_text_consolidation` through
   `frame_general_framed` (Lemmas/FframeGeneral.lean).  The parent from the child list of the parent.
 -/
 import XotModel.Lemmas.FframeGeneralMove
